@@ -1283,3 +1283,11 @@ impl ClearVOBitsAfterPrepare {
         }
     }
 }
+
+#[cfg(feature = "mmtk_verif")]
+impl<VM: VMBinding> ImmixSpace<VM> {
+    /// Verification hook: the private [`ImmixSpace::attempt_mark`].
+    pub fn verif_attempt_mark(&self, object: ObjectReference, mark_state: u8) -> bool {
+        self.attempt_mark(object, mark_state)
+    }
+}
